@@ -1662,6 +1662,59 @@ impl History {
         }
     }
 
+    /// Directed scenario (C09): a subscriber whose outbound window is (almost) full of unacknowledged QoS 1 forwards
+    /// makes a new QoS 1 subscription that matches several retained messages: the retained replay has to fit into
+    /// the free window slots like any other forward (D.41).
+    pub fn retained_replay_into_full_window(&mut self) {
+        crate::watch::set_history(self.replay_json());
+        self.actors[0].persistent = false;
+        self.connect(0, None);
+        self.connect(1, None);
+        self.step(Step::Turn);
+        for t in ["a", "a/b", "a/c", "a/b/c"] {
+            self.publish(1, t, 1, true, false, None, true);
+        }
+        self.step(Step::Turn);
+        self.drain(1);
+        self.subscribe(0, &[("b".to_owned(), 1)], true);
+        self.step(Step::Turn);
+        self.drain(0);
+        // 96..=100 unacknowledged forwards: 4..0 free slots for 4 retained messages
+        let n = 96 + self.rng.below(5);
+        for _ in 0..n {
+            self.publish(1, "b", 1, false, false, None, true);
+        }
+        for _ in 0..3 {
+            self.step(Step::Turn);
+            self.drain(0);
+            self.send_ready(0);
+            self.drain(1);
+        }
+        if self.done() {
+            return;
+        }
+        self.corner("retained-replay-into-full-window");
+        let f = (*self.rng.pick(&["a/#", "#", "a/+"])).to_owned();
+        self.subscribe(0, &[(f, 1)], true);
+        for _ in 0..2 {
+            self.step(Step::Turn);
+            self.drain(0);
+            self.send_ready(0);
+        }
+        // now acknowledge everything and let the broker go idle
+        for _ in 0..4 {
+            if self.done() {
+                return;
+            }
+            self.drain(0);
+            self.flush_acks(0, usize::MAX);
+            self.send_ready(0);
+            self.drain(1);
+            self.flush_acks(1, usize::MAX);
+            self.step(Step::Turn);
+        }
+    }
+
     /// Directed scenario: an MQTT 5 subscriber whose Topic Alias Maximum is smaller than the number of concrete
     /// filters it holds; messages on all of them, then it unsubscribes / re-subscribes them in a seeded order.
     pub fn alias_limit_exceeded(&mut self) {
